@@ -1,4 +1,5 @@
 import XvcRepo.Cache
+import XvcRepo.AddrFormat
 /-!
   # C02 — Cache objects are content-addressed and immutable
 
@@ -112,6 +113,46 @@ theorem C02_digest_documented (algo : Nat) (t : Tob) (b : Bytes) :
     (asText t b = false → (digestOf algo t b).hash = b) := by
   refine ⟨rfl, ?_, ?_⟩ <;> intro h <;> simp [digestOf, h]
 
+/-! ## the documented address format, over constants regenerated from the Rust source on every run -/
+
+/-- **C02_addr_format_documented**: the source says: 64 hex digits split 3 / 3 / 58, file name `0.<ext>`,
+    prefixes `b3 b2 s2 s3` (and the internal `a0`), pairwise distinct.  (`decide`/`rfl` on `Gen/Addr.lean`:
+    an edit of `cache_dir`, of the strum attributes or of `XvcCachePath::new` breaks this theorem.) -/
+theorem C02_addr_format_documented :
+    Gen.split1 = 3 ∧ Gen.split2 = 3 ∧ 2 * Gen.digestLength = 64 ∧ 2 * Gen.digestLength - Gen.split1 - Gen.split2 = 58 ∧
+    Gen.fileStemCodes = [48, 46] ∧ Gen.prefixCodes = [[97, 48], [98, 51], [98, 50], [115, 50], [115, 51]] ∧
+    Gen.prefixCodes.Nodup := by
+  decide
+
+theorem C02_prefix_names_documented :
+    Gen.prefixes = [("AsIs", "a0"), ("Blake3", "b3"), ("Blake2s", "b2"), ("SHA2_256", "s2"), ("SHA3_256", "s3")] ∧
+    Gen.fileStem = "0." := ⟨rfl, rfl⟩
+
+/-- **C02_addr_roundtrip**: the path of an object determines prefix, digest and extension (so two
+    different (algorithm, digest, extension) triples never share a path), for every digest and extension. -/
+theorem C02_addr_roundtrip (pfx hex ext : List Nat) : parseAddr (formatAddr pfx hex ext) = some (pfx, hex, ext) := by
+  unfold parseAddr formatAddr
+  have h1 : List.take Gen.split1 hex ++ (List.take Gen.split2 (List.drop Gen.split1 hex) ++
+      List.drop Gen.split2 (List.drop Gen.split1 hex)) = hex := by
+    rw [List.take_append_drop, List.take_append_drop]
+  simp only [List.take_left', List.drop_left', List.take_append_of_le_length, List.length_take]
+  simp
+  rw [← List.drop_drop] at *
+  first | exact h1 | (rw [List.drop_drop]; simpa [List.drop_drop] using h1)
+
+theorem C02_addr_path_injective (p h e p' h' e' : List Nat) (heq : formatAddr p h e = formatAddr p' h' e') :
+    p = p' ∧ h = h' ∧ e = e' := by
+  have := congrArg parseAddr heq
+  rw [C02_addr_roundtrip, C02_addr_roundtrip] at this
+  simpa using this
+
+/-- the three digest components have the documented lengths for a full-length digest -/
+theorem C02_addr_component_lengths (pfx hex ext : List Nat) (hl : hex.length = 2 * Gen.digestLength) :
+    (formatAddr pfx hex ext).map List.length = [pfx.length, 3, 3, 58, 2 + ext.length] := by
+  have h64 : hex.length = 64 := by simpa [Gen.digestLength] using hl
+  simp [formatAddr, Gen.split1, Gen.split2, Gen.fileStemCodes, h64]
+  omega
+
 /-! non-vacuity -/
 
 example : SoundRun {} St.init [.write ⟨0, 1⟩ [104, 10], .track [⟨0, 1⟩] {}, .write ⟨0, 1⟩ [105],
@@ -137,3 +178,13 @@ open Repo in
 #print axioms C02_addr_injective
 open Repo in
 #print axioms C02_digest_documented
+open Repo in
+#print axioms C02_addr_format_documented
+open Repo in
+#print axioms C02_prefix_names_documented
+open Repo in
+#print axioms C02_addr_roundtrip
+open Repo in
+#print axioms C02_addr_path_injective
+open Repo in
+#print axioms C02_addr_component_lengths
